@@ -357,6 +357,8 @@ func init() {
 		ext(id, "unary transcoded replies of limit-1, limit, limit+1 symbolic bytes through ServeHTTP with MaxSendMessageSizeOption: within the limit a 200 with exactly the reply's bytes, over the limit not delivered",
 			HarnessSpec{Name: "VerifH_serveHTTP_sendlimit", Covers: []string{"within", "refused"}})
 	}
+	ext("C18", "larking's interceptor constructors NewUnaryContext / NewStreamContext through the gRPC entry for a unary method and each streaming shape: full method name, streaming flags, and the handler runs under the returned context",
+		HarnessSpec{Name: "VerifH_context_helpers", Covers: []string{"unary", "client-stream", "server-stream", "bidi"}})
 	wkt := "well-known-type parameters (google.protobuf wrappers, FieldMask, Duration, Timestamp) through the real parseQueryParams / parseParam / quote / params.set: the empty text for each of 10 types, a menu of 40 boundary texts (non-BMP strings, 32/64-bit limits, duration range and Go-style units, leap days, RFC 3339 range), symbolic texts of 1..3 (quick) / 1..4 (thorough) bytes for StringValue, BoolValue, Int32Value / UInt32Value, BytesValue, FieldMask; protojson's scalar forms modelled (model_wkt.go), generated messages seen through a fake reflection view"
 	for _, id := range []string{"C03", "C09", "C01"} {
 		ext(id, wkt, HarnessSpec{Name: "VerifH_params_wkt", Covers: []string{"empty-value", "menu-accepted", "menu-rejected", "string-wrapper", "bool-wrapper", "int-wrapper", "int-wrapper-rejected", "bytes-wrapper", "fieldmask", "fieldmask-rejected"}})
@@ -542,7 +544,7 @@ func init() {
 		HarnessSpec{Name: "VerifH_http_recv_stream", Covers: []string{"clean-eof", "truncated"}})
 
 	ext("C18", "calls to a PROXIED backend (real RegisterConn + createConnHandler, in-memory backend stream under the engine / real grpc.Server natively, goroutine model with context bound 1): the four streaming shapes, succeeding and failing backend, interceptors + stats handler on and off",
-		HarnessSpec{Name: "VerifH_proxy_intercept", Concurrent: true, Covers: []string{"options-off", "unary-interceptor", "stream-interceptor", "failing", "interceptor-replaces-reply"}})
+		HarnessSpec{Name: "VerifH_proxy_intercept", Concurrent: true, Covers: []string{"options-off", "unary-interceptor", "stream-interceptor", "failing", "interceptor-replaces-reply", "interceptor-rewrites-metadata"}})
 	replaceOutside("C18", "proxied handlers over a real backend", "per-message payload stats events of proxied streams")
 
 	ext("C09", "WebSocket entry after a real upgrade (gobwas/ws interpreted): arbitrary client bytes - a symbolic 2-byte frame header (every opcode, FIN / RSV and mask bit, declared length 0..9) plus 0..5 (6) symbolic bytes, and frames announcing 125 bytes, a 16-bit and a 64-bit extended length with 2..3 bytes sent - then the connection ends",
